@@ -47,12 +47,13 @@ Record cfg := mkcfg {
   fix_loggaussian : bool;    (* C08-dict-loggaussian: LogGaussianPrior.dict writes mean and sigma *)
   fix_chain : bool;          (* C08-db-chained-assertion: Compound rows accept CompoundAssertion *)
   fix_falsy : bool;          (* C08-dict-falsy-constant: the "dict" branch of from_dict keeps falsy values *)
-  fix_instance : bool        (* C08-dict-instance-exact (proposed): a Model without free parameters is written as type
+  fix_instance : bool        (* C08-dict-instance-exact (0b56c35): a Model without free parameters is written as type
                                 "instance" only when cls(kw-arguments) rebuilds it exactly, otherwise as type "model" *)
 }.
 Definition cfg_pinned := mkcfg false false false false false.
-Definition cfg_fixed := mkcfg true true true true false.      (* /repo as it is (111eb99, a2e2dae, a21f2bc, 04fca50) *)
-Definition cfg_next := mkcfg true true true true true.        (* with proposed_fixes/C08-dict-instance-exact.diff *)
+Definition cfg_four := mkcfg true true true true false.       (* /repo after 111eb99, a2e2dae, a21f2bc, 04fca50 (history) *)
+Definition cfg_fixed := mkcfg true true true true true.       (* /repo as it is: also 0b56c35 (C08-dict-instance-exact) *)
+Definition cfg_next := cfg_fixed.
 
 Definition bind {A B} (x : outcome A) (f : A -> outcome B) : outcome B :=
   match x with Ok a => f a | Err e => Err e end.
